@@ -258,8 +258,12 @@ def cacheseq(prop, tier, seed):
         # "in both manual and automatic refresh configurations" (C01) / "every later repair" of an unscannable
         # directory (C13): directory histories on an auto-refresh cache; in every other behaviour a directory that
         # does not exist is a path below a regular file (ENOTDIR) instead of a missing entry
-        g = run_tlc("CacheAuto", "CacheAuto_gen1.cfg", timeout=1800, simulate="num=%d" % (25 if tier == "quick" else 300), depth=40, seed=seed, workers=4, deadlock=True)
-        arows = dedupe_auto(g.rows)
+        g, g2 = parallel(lambda: run_tlc("CacheAuto", "CacheAuto_gen1.cfg", timeout=1800, simulate="num=%d" % (25 if tier == "quick" else 300), depth=40, seed=seed, workers=4, deadlock=True),
+                         # two configured directories (their paths are string prefixes of each other in the harness), one of them missing at times
+                         lambda: run_tlc("CacheAuto", "CacheAuto_gen2.cfg", timeout=1800, simulate="num=%d" % (10 if tier == "quick" else 150), depth=60, seed=seed, workers=4, deadlock=True))
+        model_must_hold(g, "generation")
+        model_must_hold(g2, "generation")
+        arows = dedupe_auto(g.rows + g2.rows)
         fa = scratch_file("c01auto.ndjson")
         write_rows(arows, fa)
         try:
